@@ -254,10 +254,10 @@ def frame_decode(spec: dict, ser, data: bytes) -> Any:
     """payload codec of one delimited frame, as the incremental path applies it"""
     r = sers.recv_spec(spec)
     if r["k"] == "line":
-        # incremental path: str(data, encoding) on the frame as cut (keep_end frames include the newline)
+        # incremental path: str(data, encoding, unicode_errors) on the frame as cut (keep_end frames include the newline)
         from easynetwork.exceptions import DeserializeError
         try:
-            return str(data, r.get("encoding", "ascii"), "strict")
+            return str(data, r.get("encoding", "ascii"), r.get("errors", "strict"))
         except UnicodeError as e:
             raise DeserializeError(str(e)) from e
     return ser.deserialize(data)
